@@ -2,6 +2,7 @@ package rules
 
 import (
 	"go/ast"
+	"go/types"
 	"go/token"
 	"strings"
 
@@ -152,8 +153,36 @@ func c07Default(c *cx) {
 		return true
 	})
 	cpt, _ := g.Where(cp)
+	why0 := "literal not found"
+	if iq == nil {
+		// the reply may be built in a local first: reply := stanza.IQ{...}; reply.Wrap(...)
+		ast.Inspect(cp.Args[1], func(n ast.Node) bool {
+			call, ok := n.(*ast.CallExpr)
+			if !ok || !strings.HasSuffix(f.CalleeID(call), "stanza.IQ.Wrap") {
+				return true
+			}
+			sel, _ := ast.Unparen(call.Fun).(*ast.SelectorExpr)
+			if sel == nil {
+				return true
+			}
+			if idn, ok := ast.Unparen(sel.X).(*ast.Ident); ok {
+				if v, ok := f.Info().ObjectOf(idn).(*types.Var); ok {
+					if d := g.UniqueDef(v, cpt); d != nil && d.RHS != nil {
+						if cl, ok := ast.Unparen(d.RHS).(*ast.CompositeLit); ok && eng.TypeStr(f.Info().TypeOf(cl)) == "stanza.IQ" {
+							iq = cl
+							return false
+						}
+					}
+					why0 = "the reply is built in " + f.Norm(sel.X, &cpt) + ", which is not a stanza.IQ literal of this call: storage that persists between elements keeps the addressee of an earlier request"
+				}
+			} else {
+				why0 = "the reply is built in " + f.Norm(sel.X, &cpt) + ", which is not a stanza.IQ literal of this call: storage that persists between elements keeps the addressee of an earlier request"
+			}
+			return true
+		})
+	}
 	if iq == nil || se == nil {
-		c.r.Check(id, f, "default reply literal", "the reply is stanza.IQ{...}.Wrap(stanza.Error{...}.TokenReader())", cp.Pos(), false, "literal not found")
+		c.r.Check(id, f, "default reply literal", "E-alias: the reply is a stanza.IQ literal built for this element, wrapped around a stanza.Error literal", cp.Pos(), false, why0)
 		return
 	}
 	fld := func(cl *ast.CompositeLit, name string) string {
@@ -416,6 +445,9 @@ func c07Fallback(c *cx) {
 		return
 	}
 	c.dom(id, f, cp, "fallback reply", []string{"!eq(p0.Type,stanza.ErrorIQ)", "!eq(p0.Type,stanza.ResultIQ)"})
+	// ... and for nothing less: a get or set without an id, without a sender or
+	// with an odd payload is still a request the peer is waiting on
+	c.onlyFacts(id, f, cp, "fallback reply for every request", []string{"!eq(p0.Type,stanza.ErrorIQ)", "!eq(p0.Type,stanza.ResultIQ)", "!eq(stanza.ErrorIQ,p0.Type)", "!eq(stanza.ResultIQ,p0.Type)"})
 	cpt, _ := g.Where(cp)
 	swap, typ := false, false
 	for _, nd := range g.ReachableNodes(g.Entry(), nil) {
